@@ -632,3 +632,18 @@ Proof.
     eexists. apply step_kind_sound. eapply SK_push; eauto.
     intros ->. unfold thr_at in *. rewrite Ht in Hz. injection Hz as <-. congruence.
 Qed.
+
+(** ---- the quantification made explicit ---- *)
+Lemma every_schedule_reach n sched : reach (run step sched (init_state n)).
+Proof. apply run_reachable. apply reach_init. exists n. reflexivity. Qed.
+
+Lemma reach_is_run s : reach s -> exists n sched, run step sched (init_state n) = s.
+Proof.
+  intros R. destruct (reachable_run R) as (s0 & sched & (n & ->) & E). exists n, sched. exact E.
+Qed.
+
+(** schedule used by a non-vacuity example: thread 0 is handed over, returns, announces and waits again
+    and publishes itself while the signal call of thread 1 has not returned yet *)
+Definition repeat_sched : list (nat * ev) :=
+  [(0, EAnnounce); (0, ECall Wait); (0, ECbTick); (1, ECall Signal); (1, ETick); (1, ETick); (1, ETick);
+   (0, ERet 0%Z); (0, EAnnounce); (0, ECall Wait); (0, ECbTick)].
